@@ -81,10 +81,10 @@ Definition cert_verifies (c : cell) : bool := match k_kind c with KValid => k_ca
 Definition table_secured (c : cell) : bool :=
   cert_verifies c || match k_mode c with MTrustFlag | MCallbackAccepts => true | _ => false end.
 
-Definition cell_scenario (c : cell) (mandatory : bool) (stream : list (Z * Z)) (hs_ok : bool) (te : Z)
+Definition cell_scenario (c : cell) (before : list cbk) (mandatory : bool) (stream : list (Z * Z)) (hs_ok : bool) (te : Z)
                          (after : peer_after) : scenario :=
   mkScenario (match k_mode c with MTrustFlag => true | _ => false end)
-             (k_ca c) false
+             (k_ca c) false before
              (match k_mode c with
               | MCallbackAccepts => CbScript [] 1
               | MCallbackRejects => CbScript [] 0
